@@ -309,6 +309,7 @@ Definition step_pw_reply (s : sys) (e : event) (r T : N) (ks : list N) (x : pw_r
        | PwOk _ _ => true
        | _ => negb (commit_point_pw (getc s T)) || forallb (fun k => kcnt (getc s T) KNeg k + occ k ks <=? kcnt (getc s T) KNegD k) ks
        end) else N_dup_reply;
+  chk (negb (commit_point_pw (getc s T)) || forallb (fun k => kcnt (getc s T) KRep k + occ k ks <=? kcnt (getc s T) KDlv k) ks) else N_dup_reply;
   let c := add_kl (incn (getc s T) FPwRep) KRep ks in
   let c := match x with
            | PwOk m o =>
@@ -467,7 +468,8 @@ Definition step_told (s : sys) (T : N) (t : told_res) : res :=
   chk (negb (owner_crashed s T)) else X_crashed;
   chk (cn c FTold =? 0) else R7_send_after_told;
   match t with
-  | TOk => chk (negb (cn c FPcOk =? 0) || negb (cn c F1pcTs =? 0) ||
+  | TOk => chk (negb (async_kept c) || pw_closed c) else R7_ok_without_commit;
+           chk (negb (cn c FPcOk =? 0) || negb (cn c F1pcTs =? 0) ||
                 (async_kept c && fb c FHasm && subset (c_lm c) (c_pwok c) && pw_closed c)) else R7_ok_without_commit;
            Ok (setc s T (setn c FTold 1))
   | TErr => chk (neg_ok c && (negb (commit_point_pw c) || err_ok c) && (cn c F1pcTs =? 0)) else R7_err_with_pending;
